@@ -551,6 +551,50 @@ def leave_with_unread_indications(sel: int, raises: bool) -> bool:
     return ok
 
 
+@cond(bounds='an abort by the LOCAL side as the peer sees it (real provider, the octets on the connection read back by field offsets '
+             'of PS3.8 9.3.8): the requesting user aborts an established association with a symbolic reason 0..255 (source 0 = '
+             'service user); the accepting application aborts with a symbolic reason (source 2) - one instance each: exactly '
+             'one A-ABORT PDU is written, carrying that source and that reason unchanged', family={'role': ['requestor', 'acceptor']},
+      timeout=240)
+def local_abort_on_the_wire(reason: int) -> bool:
+    """
+    pre: 0 <= reason <= 255
+    post: _
+    """
+    from vt import sim
+    from vt.harness import live as L
+    from vt.harness import prov as P
+    with sim._no_tracing():
+        L.install(sim.SimClock(1000))
+    if fam('role') == 'requestor':
+        with sim._no_tracing():
+            ae = _client_ae()
+
+            def react(new):
+                return [_ac_for(raw) for raw in new if raw[0] == 1] + [b'' for raw in new if raw[0] == 7]
+            lr = L.LiveRequester(ae, {'aet': 'REMOTE', 'address': 'h', 'port': 104}, react)
+            lr.asce.request()
+        lr.asce.abort(reason)
+        wire, want_source = lr.wire(), 0
+    else:
+        with sim._no_tracing():
+            ae = object.__new__(applicationentity.AE)
+            applicationentity.AEBase.__init__(ae, [TS], 16384)
+            from pynetdicom2 import sopclass
+            ae.add_scp(sopclass.verification_scp)
+            la = L.LiveAcceptor(ae, 'A')
+            la.deliver(P.get_corpus()['acc_echo_release'][1][0][1])
+            la.establish()
+        la.acc.abort(reason)
+        la.pump.run()
+        wire, want_source = la.wire(), 2
+    aborts = [w for w in wire if w[0] == 7]
+    ok = len(aborts) == 1 and wire[-1] is aborts[0] and len(aborts[0]) == 10 and aborts[0][2:6] == b'\x00\x00\x00\x04'
+    ok = ok and aborts[0][8] == want_source and aborts[0][9] == reason
+    deep(ok and reason == 6)
+    return ok
+
+
 def explain(cname, args, famv):
     if cname == 'leave_with_unread_indications':
         leave_with_unread_indications(**args)
